@@ -3,7 +3,10 @@
     [bs] = block size, [maxWound] = MaxWoundSize, [hash]/[heqb] = strong+weak hash of a block and
     its comparison; [hash_inj] states the one thing assumed of MD5: distinct blocks that are
     compared have distinct hashes.  The actual directory enters as one observation per signed
-    entry ([obs]: missing / ENOTDIR / dir / symlink dest / regular file content / other error). *)
+    entry ([obs]: missing / ENOTDIR / dir / symlink dest / regular file content / other error)
+    together with [anc], the indices of its ancestor directories in the container: since the
+    "fix:" commits of C06 a wounded directory hides everything below it (nothing below is looked
+    at on disk, it is all wounded). *)
 From Wharf Require Import Base.Prelude Val.Drip Val.VPool Val.FileVal Val.FileValProofs.
 Local Open Scope Z_scope.
 
@@ -12,43 +15,43 @@ Local Open Scope Z_scope.
 Theorem deviation_located :
   forall (H : Type) (bs : Z), 0 < bs -> forall (maxWound : Z) (hash : list N -> H) (heqb : H -> H -> bool),
     (forall a b, heqb (hash a) (hash b) = true -> a = b) ->
-  forall ds ls fs ws (k : nat) (signed content : list N) (o : nat),
+  forall ds ls fs ws (k : nat) (anc : list nat) (signed content : list N) (o : nat),
     validate bs maxWound hash heqb ds ls fs = Some ws ->
-    nth_error fs k = Some (signed, OFile content) ->
+    nth_error fs k = Some (anc, signed, OFile content) ->
     (o < length signed)%nat -> nth_error content o <> nth_error signed o ->
     exists w, In w (reported ws) /\ in_wound (Z.of_nat k) (Z.of_nat o) w.
-Proof. exact (@deviation_located_lemma). Qed.
+Proof. exact (@deviation_located_full). Qed.
 Print Assumptions deviation_located.
 
 (** A file that is shorter or longer than signed, missing, or not a regular file gets a wound. *)
 Theorem file_mismatch_wounded :
   forall (H : Type) (bs : Z) (maxWound : Z) (hash : list N -> H) (heqb : H -> H -> bool),
-  forall ds ls fs ws (k : nat) (signed : list N) (o : obs),
+  forall ds ls fs ws (k : nat) (anc : list nat) (signed : list N) (o : obs),
     validate bs maxWound hash heqb ds ls fs = Some ws ->
-    nth_error fs k = Some (signed, o) ->
+    nth_error fs k = Some (anc, signed, o) ->
     (forall c, o = OFile c -> length c <> length signed) ->
     exists w, In w (reported ws) /\ wk w = WFile /\ widx w = Z.of_nat k.
-Proof. exact (@file_mismatch_wounded_lemma). Qed.
+Proof. exact (@file_mismatch_wounded_full). Qed.
 Print Assumptions file_mismatch_wounded.
 
 (** A directory / symlink that is missing, of the wrong kind or (symlink) has the wrong
     destination gets a DIR / SYMLINK wound. *)
 Theorem dir_mismatch_wounded :
   forall (H : Type) (bs : Z) (maxWound : Z) (hash : list N -> H) (heqb : H -> H -> bool),
-  forall ds ls fs ws (k : nat) (o : obs),
+  forall ds ls fs ws (k : nat) (anc : list nat) (o : obs),
     validate bs maxWound hash heqb ds ls fs = Some ws ->
-    nth_error ds k = Some o -> o <> ODir ->
+    nth_error ds k = Some (anc, o) -> o <> ODir ->
     In (mkwound WDir (Z.of_nat k) 0 0) (reported ws).
-Proof. exact (@dir_mismatch_wounded_lemma). Qed.
+Proof. exact (@dir_mismatch_wounded_full). Qed.
 Print Assumptions dir_mismatch_wounded.
 
 Theorem link_mismatch_wounded :
   forall (H : Type) (bs : Z) (maxWound : Z) (hash : list N -> H) (heqb : H -> H -> bool),
-  forall ds ls fs ws (k : nat) (want : N) (o : obs),
+  forall ds ls fs ws (k : nat) (anc : list nat) (want : N) (o : obs),
     validate bs maxWound hash heqb ds ls fs = Some ws ->
-    nth_error ls k = Some (want, o) -> o <> OLink want ->
+    nth_error ls k = Some (anc, want, o) -> o <> OLink want ->
     In (mkwound WSymlink (Z.of_nat k) 0 0) (reported ws).
-Proof. exact (@link_mismatch_wounded_lemma). Qed.
+Proof. exact (@link_mismatch_wounded_full). Qed.
 Print Assumptions link_mismatch_wounded.
 
 (** Validation never declares a deviating directory valid: if nothing is reported, every
@@ -59,10 +62,10 @@ Theorem never_false_valid :
     (forall a b, heqb (hash a) (hash b) = true -> a = b) ->
   forall ds ls fs ws,
     validate bs maxWound hash heqb ds ls fs = Some ws -> reported ws = [] ->
-    Forall (fun o => o = ODir) ds /\
-    Forall (fun p => snd p = OLink (fst p)) ls /\
-    Forall (fun p => snd p = OFile (fst p)) fs.
-Proof. exact (@never_false_valid_lemma). Qed.
+    Forall (fun p => snd p = ODir) ds /\
+    Forall (fun x => let '(_, want, o) := x in o = OLink want) ls /\
+    Forall (fun x => let '(_, signed, o) := x in o = OFile signed) fs.
+Proof. exact (@never_false_valid_full). Qed.
 Print Assumptions never_false_valid.
 
 Theorem failfast_ok_only_if_matching :
@@ -70,10 +73,10 @@ Theorem failfast_ok_only_if_matching :
     (forall a b, heqb (hash a) (hash b) = true -> a = b) ->
   forall ds ls fs,
     failfast bs maxWound hash heqb ds ls fs = ROk ->
-    Forall (fun o => o = ODir) ds /\
-    Forall (fun p => snd p = OLink (fst p)) ls /\
-    Forall (fun p => snd p = OFile (fst p)) fs.
-Proof. exact (@failfast_ok_matches). Qed.
+    Forall (fun p => snd p = ODir) ds /\
+    Forall (fun x => let '(_, want, o) := x in o = OLink want) ls /\
+    Forall (fun x => let '(_, signed, o) := x in o = OFile signed) fs.
+Proof. exact (@failfast_ok_matches_full). Qed.
 Print Assumptions failfast_ok_only_if_matching.
 
 (** Every reported wound names an existing entry of its kind and has 0 <= start <= end
@@ -89,7 +92,7 @@ Theorem wounds_wellformed :
     | WSymlink => 0 <= widx w < Z.of_nat (length ls)
     | WFile | WClosed => 0 <= widx w < Z.of_nat (length fs)
     end.
-Proof. exact (@wounds_wellformed_lemma). Qed.
+Proof. exact (@wounds_wellformed_full). Qed.
 Print Assumptions wounds_wellformed.
 
 (** AggregateWounds keeps every wounded offset wounded and relays healthy markers untouched. *)
@@ -112,6 +115,13 @@ Print Assumptions aggregate_relays_healthy.
 (** non-vacuity: bs = 4, signed "1234|56", actual "1294|5" (one flip, one byte short):
     the run succeeds and reports [0,4) and the size wound [5,6) *)
 Example validate_example :
-  option_map (@reported) (validate 4 100 (fun b : list N => b) nlist_eqb [ODir] [(1%N, OLink 1%N)] [([1;2;3;4;5;6]%N, OFile [1;2;9;4;5]%N)])
+  option_map (@reported) (validate 4 100 (fun b : list N => b) nlist_eqb [([], ODir)] [([0%nat], 1%N, OLink 1%N)] [([0%nat], [1;2;3;4;5;6]%N, OFile [1;2;9;4;5]%N)])
   = Some [mkwound WFile 0 0 6; mkwound WFile 0 5 6].
+Proof. vm_compute. reflexivity. Qed.
+
+(** a wounded directory hides what is below it: dir 0 is a symlink on disk, so the file below
+    it is wounded whole although its bytes (seen through the link) are the signed ones *)
+Example hidden_subtree_example :
+  option_map (@reported) (validate 4 100 (fun b : list N => b) nlist_eqb [([], OLink 7%N)] [] [([0%nat], [1;2;3]%N, OFile [1;2;3]%N)])
+  = Some [mkwound WDir 0 0 0; mkwound WFile 0 0 3].
 Proof. vm_compute. reflexivity. Qed.
